@@ -138,7 +138,7 @@ int main(int argc, char** argv) {
     S.push_back({"collective mismatch", 2, "collective-mismatch", [](int rank, std::vector<std::string>& msgs) {
         mpi::communicator c; int v = 3; if (rank == 0) c.barrier(); else mpi::broadcast(c, v, 0);
     }, nullptr});
-    S.push_back({"bcast count mismatch", 2, "collective-mismatch", [](int rank, std::vector<std::string>& msgs) {
+    S.push_back({"bcast count mismatch", 2, "collective-count-mismatch", [](int rank, std::vector<std::string>& msgs) {
         mpi::communicator c; double v[4] = {1, 2, 3, 4}; mpi::broadcast(c, v, rank == 0 ? 4 : 3, 0);
     }, nullptr});
     S.push_back({"world barrier vs MPI_Barrier same ctx", 3, "ok", [](int rank, std::vector<std::string>& msgs) {
